@@ -116,6 +116,7 @@ def run_sequence(pystog, cfg, datasets):
         stog.merged_opts = dict(cfg.get("Merging") or {})
     snaps = [snap(stog)]
     cur = dict(cfg["mat"])
+    infos = []
     for d in datasets:
         for k_, v_ in (d.get("set_before") or {}).items():   # the instance's scattering lengths may change between datasets
             setattr(stog, {"bcoh": "bcoh_sqrd", "btot": "btot_sqrd"}[k_], v_)
@@ -136,7 +137,14 @@ def run_sequence(pystog, cfg, datasets):
                 rej = "changed" if (after["recip"], after["sq"]) != (before["recip"], before["sq"]) else "clean"
             except Exception as e_:
                 rej = "raised %s" % type(e_).__name__
-        stog.add_dataset(info_of(d))
+        if d.get("reuse_info_of") is not None and d["reuse_info_of"] < len(infos):
+            # a template dict used again for other data (a loop over banks; a Files entry re-read): only its "data" is replaced
+            info = infos[d["reuse_info_of"]]
+            info["data"] = info_of(d)["data"]
+        else:
+            info = info_of(d)
+        infos.append(info)
+        stog.add_dataset(info)
         sn = snap(stog)
         sn["mat"] = dict(cur)
         if rej is not None:
